@@ -7,7 +7,7 @@ E1 (second): the same obligations through the real objects (DiameterMessage + Re
 CrossHair, covering the glue (has_avp, attribute lookup, data width) that E2 stubs.
 """
 from vf.driver import Q
-from vf.h import P, reached, note
+from vf.h import REPLAY, P, reached, note
 from vf import ast2smt as A
 
 import bromelia.utils as U
@@ -212,7 +212,7 @@ def obj_pred(n: int, flags: int) -> bool:
     m.append(ResultCodeAVP(n))
     r = getattr(U, OBJ_PREDS[k])(m)
     reached()
-    note(n=n, flags=flags, observed=repr(r), expected=(n // 1000 == k))
+    if REPLAY: note(n=n, flags=flags, observed=repr(r), expected=(n // 1000 == k))
     return bool(r) == (n // 1000 == k)
 
 
@@ -233,7 +233,7 @@ def obj_exclusive(n: int, flags: int) -> bool:
         if getattr(U, INT_PREDS[k])(n):
             ints += 1
     reached()
-    note(n=n, object_predicates_true=hits, int_predicates_true=ints)
+    if REPLAY: note(n=n, object_predicates_true=hits, int_predicates_true=ints)
     return hits <= 1 and ints <= 1 and hits == ints
 
 
@@ -245,7 +245,7 @@ def int_pred(n: int) -> bool:
     k = P["k"]
     r = getattr(U, INT_PREDS[k])(n)
     reached()
-    note(n=n, observed=repr(r), expected=(n // 1000 == k))
+    if REPLAY: note(n=n, observed=repr(r), expected=(n // 1000 == k))
     return r is (n // 1000 == k)
 
 
